@@ -100,7 +100,7 @@ func genCase(prop string) func(t *rapid.T) Case {
 			case "setstate", "swapstate":
 				op.State = rapid.SampledFrom([]string{"fresh", "fresh", "same", "empty", "equiv"}).Draw(t, "state")
 			case "finish":
-				op.Out = rapid.SampledFrom([]string{"nil", "err", "err", "ctxerr"}).Draw(t, "out")
+				op.Out = rapid.SampledFrom([]string{"nil", "err", "err", "ctxerr", "wrapcancel"}).Draw(t, "out")
 				op.Pick = rapid.IntRange(0, 3).Draw(t, "pick")
 			case "advance":
 				op.D = rapid.IntRange(0, len(advTable)-1).Draw(t, "d")
@@ -384,6 +384,9 @@ func body(c *sched.Ctl, cs Case, v *ev.Verdict) {
 				if e := ctx.Err(); e != nil {
 					return e
 				}
+			case "wrapcancel":
+				// an error value of the routine's own that wraps the sentinel: reported as it is
+				return fmt.Errorf("routine-%d gave up: %w", in.id, context.Canceled)
 			}
 			return fmt.Errorf("routine-error-%d", in.id)
 		}
